@@ -60,6 +60,8 @@ theorem popFirst_none (s : Nat) : ∀ (l : List Item), popFirst s l = none → i
       | none => simp [itemsOf_cons, hts, popFirst_none s xs hp]
       | some pr => obtain ⟨a, b⟩ := pr; simp [hp] at h
 
+@[simp] theorem takeP_nil (p : Item → Bool) (k : Nat) : takeP p k [] = ([], []) := by cases k <;> rfl
+
 theorem takeP_cons_pos (p : Item → Bool) (k : Nat) (x : Item) (xs : List Item) (h : p x = true) :
     takeP p (k+1) (x :: xs) = (x :: (takeP p k xs).1, (takeP p k xs).2) := by simp [takeP, h]
 theorem takeP_cons_neg (p : Item → Bool) (k : Nat) (x : Item) (xs : List Item) (h : ¬ p x = true) :
